@@ -281,6 +281,46 @@ def chain_obs(timeout):
     obs.append(Ob('c06.sharing[repeated refs]', h_share, pre=lambda a, d: 2 <= d <= 10 and -100 <= a <= 100, witness=[(3, 2), (1, 10)], timeout=timeout, cost=20, family='c06.sharing',
                   bounds='A(d) = A(d-1)+A(d-1) for d in 2..10 (forked), A1 in -100..100: value a*2^(d-1), never a cycle report, within 250 extra interpreter frames',
                   show=lambda a, d: f'A1={a}, evaluate A{d} and B{d}'))
+    # one evaluator across a history in which an input opens and closes a cycle through IF: every evaluation answers for the
+    # graph as it is now (no stale "acyclic" knowledge, no stale chain after a reported cycle)
+    TM = mk({'A1': '=IF(C1>0,B1,7)', 'B1': '=A1+1', 'C1': 0, 'D1': '=A1+B1'})
+    TCELLS = ['A1', 'B1', 'D1']
+    TEXP = [7, 8, 15]
+
+    def h_toggle(c1: int, c2: int, e1: int, e2: int, fresh_first: bool) -> bool:
+        setv(TM, 'Sheet1!C1', 0)
+        for a in TCELLS:
+            TM.cells['Sheet1!' + a].value = 0
+        ev = Evaluator(TM)
+        if not fresh_first:
+            for a in TCELLS:                                   # everything evaluated once while the cycle is open
+                ev.evaluate('Sheet1!' + a)
+        for c, e in ((c1, e1), (c2, e2)):
+            e = concretize(e, 0, 2)
+            ev.set_cell_value('Sheet1!C1', c)
+            with limited_recursion(200):
+                try:
+                    r = ev.evaluate('Sheet1!' + TCELLS[e])
+                except RecursionError:
+                    return False
+                except Exception as ex:
+                    if not c > 0:
+                        return False                           # cycle report (or failure) while the cycle is open
+                    msg = str(ex)
+                    if not ('ycle' in msg and 'maximum recursion' not in msg):
+                        return False
+                    continue
+            if c > 0:
+                return False                                   # closed cycle not reported
+            if not num_is(r, TEXP[e]):
+                return False
+        return True
+    obs.append(Ob('c06.toggle[cycle opened and closed by an input, one evaluator]', h_toggle,
+                  pre=lambda c1, c2, e1, e2, ff: 0 <= e1 <= 2 and 0 <= e2 <= 2,
+                  witness=[(0, 1, 0, 1, False), (1, 0, 2, 2, True), (5, 0, 1, 1, False)], timeout=timeout, cost=30, family='c06.toggle',
+                  bounds='A1=IF(C1>0,B1,7), B1=A1+1, D1=A1+B1; one evaluator; optionally all cells evaluated first; then 2 x (set C1 to any int; evaluate A1, B1 or D1 (forked)): '
+                         'cycle report iff C1>0 at that moment, otherwise 7 / 8 / 15; a reported cycle does not poison later evaluations',
+                  show=lambda c1, c2, e1, e2, ff: ('' if ff else 'evaluate all with C1=0; ') + '; '.join(f'set C1={c}; evaluate {TCELLS[e % 3]}' for c, e in ((c1, e1), (c2, e2)))))
     return obs
 
 
